@@ -222,6 +222,17 @@ def run(ctx):
               "Man::new calls cmd.build() before anything else", "Man::new no longer builds the command first")
 
 
+    # ---- R19.2b the section predicates say exactly "there is a visible item" (a narrower test drops a section that has something to show)
+    for n_, src in (("app_has_arguments", "get_arguments(cmd)"), ("app_has_subcommands", "get_subcommands(cmd)")):
+        b_ = fx.body("clap_mangen::" + n_)
+        anyc = b_.calls_to(r"Iterator>?::any$")
+        okp = len(anyc) == 1 and expr(b_, anyc[0].args[0]) == src and expr(b_, {"cp": 0}) == "any(%s,closure())" % src
+        cbs = closure_bodies(fx, anyc[0]) if anyc else []
+        okc = bool(cbs) and all(re.fullmatch(r"Not\(is_hide_set\(\w+\)\)", expr(cb, 0)) and len([x for x in cb.calls() if not sp_macro(x.sp)]) == 1 for cb in cbs)
+        res.check(okp and okc, "R19.2", "section-predicate|" + n_, b_.where(), "%s = any item is not hidden" % n_,
+                  "%s is no longer `any(!is_hide_set)` over %s (%s / %s): a section with visible items can be skipped, those items are then named nowhere on the page" % (n_, src, expr(b_, {"cp": 0})[:60], [expr(cb, 0)[:60] for cb in cbs]))
+
+
 def classify_mangen(fx, b, c):
     """HIDE classification for a source call in clap_mangen (filter closure / guarded loop / presence)."""
     def xfer(cc, ta):
@@ -262,3 +273,4 @@ def only_if_any_true(body, bb, rx):
             seen.add(s)
             work.append(s)
     return bb not in seen
+
